@@ -18,7 +18,13 @@ Case = {"kind": "ds"|"dsu"|"cg",           Dataset() | Dataset(default_union=Tru
                                              @vocab, plain terms equal to graph / predicate IRIs, @base), auto_compact,
                                              use_native_types, use_rdf_type, base, sort_keys, indent, ensure_ascii; trig base,
                                              spacious; nquads / trix / hext base; patch header_id, header_prev
-        "d2": {"reg": […], "quads": […]} | None}      second dataset for the patch clause (ds/dsu only)
+        "d2": {"reg": […], "quads": […]} | None,      second dataset for the patch clause (ds/dsu only)
+        "ptext": {"mode", "hid", "hprev", "clean", "doc"} | None}   round g, text level of RDF Patch (ds/dsu with d2):
+                                             mode = target | default | add | remove | add+target | remove+target (keywords of
+                                             serialize), hid / hprev = None | "" | n (header_id / header_prev = urn:h:n);
+                                             doc = a hand-made patch document, lines in the driver's token form; clean = it is
+                                             the diff d1 → d2 respelled (rows shuffled / repeated, `<_:b>` labels, comments, blank
+                                             lines, H / TX / TC / TA / PA / PD rows in between): applied to d1 it must give d2
 Terms are tokens into the vocabulary below (i = IRI, l = literal, b = blank node); a graph name
 shares its token with the same term used inside triples.
 
@@ -28,6 +34,9 @@ Observations (all canonical up to ONE renaming of blank nodes, graph names inclu
                          children, hext 6th element, JSON-LD top-level @graph/@id, patch rows)
                  route = quads of Dataset().parse(data=output, format=F)
   patch pair:    rows of d1.serialize(format="patch", target=d2) and the quads after applying them to a copy of d1
+  patch text:    the whole document written under the case's keywords, line by line (header rows, TX, A rows, D rows, TC;
+                 rows sorted inside a run of the same operation) and outcome + quads of parsing the hand-made document into a
+                 copy of d1 — compared with serializeDoc / parseDoc of the model
 Oracle (independent of Lean): isoutil.iso(expected quads, parsed quads) with the default graph a constant.
 """
 import hashlib
@@ -362,6 +371,61 @@ def _gen_opts(rng, F):
     return o
 
 
+
+WEIRD_HEADS = ["AA", "AD", "DA", "DD", "ADA", "X", "a", "d", "PAD", "PDA", "PAP", "PX", "TAX", "TCP", "TXT", "Hello", "HA", "T", "P"]
+
+
+def _gen_ptext(rng, quads, quads2):
+    """keywords for the patch serializer + a hand-made patch document (token lines of the driver protocol)"""
+    hdr = lambda: rng.choice([None, None, "", 1, 2, 3])      # noqa: E731
+    mode = rng.choice(["target"] * 4 + ["default", "add", "remove", "add+target", "remove+target"])
+    adds = [q for q in quads2 if q not in quads]
+    dels = [q for q in quads if q not in quads2]
+    clean = rng.random() < 0.55
+    rows = [("A", q) for q in adds] + [("D", q) for q in dels]
+    if clean:
+        rng.shuffle(rows)
+        if rows:
+            rows += [rng.choice(rows) for _ in range(rng.choice([0, 0, 1, 2]))]     # a repeated row changes nothing
+    else:
+        pool = [list(q) for q in quads + quads2] or [["i1", "i7", "l2", "D"]]
+        rows = []
+        for _ in range(rng.randint(1, 7)):
+            q = list(rng.choice(pool))
+            if rng.random() < 0.3:
+                q[3] = rng.choice(GNAMES + ["D"])
+            rows.append((rng.choice("AD"), q))
+            if rng.random() < 0.3:                     # the same quad again with the other (or the same) operation
+                rows.append((rng.choice("AD"), q))
+
+    def angle(t):
+        return "w" + t[1:] if t[0] == "b" and rng.random() < 0.3 else t
+
+    def qline(head, q):
+        s_, p_, o_, g_ = q
+        g_ = "U" if g_ == "D" and rng.random() < 0.85 else g_        # sometimes <urn:x-rdflib:default> spelled out
+        return [head, "Q", angle(s_), p_, angle(o_), angle(g_) if g_ != "U" else g_]
+
+    lines = []
+    for op, q in rows:
+        head = op
+        if not clean and rng.random() < 0.12:
+            head = rng.choice(WEIRD_HEADS)
+        lines.append(qline(head, q))
+    some_q = (rows[0][1] if rows else ["i1", "i7", "l2", "D"])
+    neutral = [["B"], ["C"], ["TX", "."], ["TC", "."], ["TA", "."], ["TA", "N"], ["H", "H", "id", "3"], ["H", "H", "prev", "2"],
+               ["PA", "P"], ["PD", "P"], ["A", "N"], ["D", "N"], ["A", "K"], ["D", "K"], ["TC", "K"], qline("H", some_q), qline("TX", some_q), ["Hello", "N"],
+               ["PA", "H", "id", "1"]]
+    noisy = [[rng.choice(WEIRD_HEADS), rng.choice(["N", ".", "P", "K"])], ["PA", "K"], ["PAD", "K"], ["PDA", "K"], ["A", "."], ["D", "P"], ["PA", "N"], ["PD", "."],
+             qline("PA", some_q), ["A", "H", "id", "1"], ["AD", "N"], ["PAD", "P"]]
+    for _ in range(rng.choice([0, 1, 2, 3, 4])):
+        lines.insert(rng.randrange(len(lines) + 1), list(rng.choice(neutral)))
+    if not clean:
+        for _ in range(rng.choice([0, 0, 1, 1, 2])):
+            lines.insert(rng.randrange(len(lines) + 1), list(rng.choice(noisy)))
+    return {"mode": mode, "hid": hdr(), "hprev": hdr(), "clean": clean, "doc": lines, "ws": rng.randrange(1 << 16)}
+
+
 def gen_case(rng, tier, i):
     kind = rng.choice(["ds", "ds", "ds", "dsu", "dsu", "cg"])
     enc = None
@@ -428,8 +492,12 @@ def gen_case(rng, tier, i):
             d2["kind"] = rng.choice(["ds", "dsu"])           # default_union of the target independent of the source's
         if rng.random() < 0.2:
             d2["copy_kind"] = rng.choice(["ds", "dsu"])      # … and of the dataset the patch is applied to
-    return {"kind": kind, "reg": reg, "quads": quads, "api": rng.randrange(6), "d2": d2, "enc": enc, "opt": opt,
-            "binds": binds, "src": src, "io": iox, "pmode": pmode}
+    api = rng.randrange(6)
+    ptext = None
+    if d2 is not None and not src.get("anon_graph"):
+        ptext = _gen_ptext(rng, quads, d2["quads"])
+    return {"kind": kind, "reg": reg, "quads": quads, "api": api, "d2": d2, "enc": enc, "opt": opt,
+            "binds": binds, "src": src, "io": iox, "pmode": pmode, "ptext": ptext}
 
 
 # ------------------------------------------------------------------ building the datasets through the public API
@@ -572,6 +640,90 @@ def read_patch(text):
             raise ValueError("row with %d terms" % len(ts))
         rows.append((op, ts[3] if len(ts) == 4 else None, ts[0], ts[1], ts[2]))
     return rows
+
+
+
+def read_patch_doc(text):
+    """every line of a patch document as a token string of the driver protocol (independent of rdflib's parser)"""
+    out = []
+    for ln in text.split("\n"):
+        ln = ln.strip()
+        if not ln:
+            continue
+        m = re.fullmatch(r"H (id|prev) <urn:h:(\d+)> \.", ln)
+        if m:
+            out.append("H,%s,%s" % (m.group(1), m.group(2)))
+        elif ln in ("TX .", "TC ."):
+            out.append(ln[:2])
+        elif ln[:2] in ("A ", "D "):
+            ts = _nq_terms(ln[2:])
+            if len(ts) not in (3, 4):
+                raise ValueError("row with %d terms" % len(ts))
+            g = "U" if len(ts) == 3 else ("D" if ts[3] == ("i", str(DEFAULT_ID)) else tok_of_key(ts[3]))
+            out.append(",".join([ln[0]] + [tok_of_key(t) for t in ts[:3]] + [g]))
+        else:
+            raise ValueError("unexpected patch line %r" % ln)
+    return out
+
+
+def _doc_line(tokens):
+    """rows of the same operation that follow each other are sorted (their order follows hash order in the code)"""
+    out, run = [], []
+    for t in tokens + [None]:
+        if t is not None and t[:2] in ("A,", "D,") and (not run or run[0][0] == t[0]):
+            run.append(t)
+            continue
+        out += sorted(run)
+        run = [t] if t is not None and t[:2] in ("A,", "D,") else []
+        if t is not None and not run:
+            out.append(t)
+    return " ; ".join(out)
+
+
+def _spell(tok):
+    if tok[0] == "w":
+        return "<_:%s>" % TERM["b" + tok[1:]]
+    if tok == "D":
+        return "<%s>" % DEFAULT_ID
+    t = TERM[tok]
+    if isinstance(t, Literal):          # N-Triples spelling written here (Literal.n3() uses Turtle long strings)
+        lex = str(t).replace("\\", "\\\\").replace('"', '\\"').replace("\n", "\\n").replace("\r", "\\r").replace("\t", "\\t")
+        return '"%s"' % lex + ("@" + t.language if t.language else "^^<%s>" % t.datatype if t.datatype is not None else "")
+    return "_:%s" % t if isinstance(t, BNode) else "<%s>" % t
+
+
+def patch_text_of(doc, ws):
+    """the hand-made document as text (white space variants chosen by `ws`)"""
+    import random
+    r = random.Random(ws)
+    out = []
+    for ln in doc:
+        if ln == ["B"]:
+            out.append(r.choice(["", "   ", "\t"]))
+            continue
+        if ln == ["C"]:
+            out.append(r.choice(["# A <http://e/a> <http://e/p> <http://e/b> .", "#", "  # TX ."]))
+            continue
+        head, kind = ln[0], ln[1]
+        lead = r.choice(["", "", "", " ", "\t "])
+        tail = r.choice([" .", " .", " .", ".", " . # c", " .  "])
+        if kind == "N":
+            body = r.choice(["", "", "   "])
+        elif kind == "K":
+            body = " # c"
+        elif kind == ".":
+            body = " ."
+        elif kind == "P":
+            body = " ex: <http://e/ns#> ."
+        elif kind == "H":
+            body = " %s <urn:h:%s> ." % (ln[2], ln[3])
+        else:
+            terms = [_spell(x) for x in ln[2:5]] + ([] if ln[5] == "U" else [_spell(ln[5])])
+            if head.startswith("P"):      # PA / PD rows are split at blanks by the code: keep the canonical ` .` there
+                tail = " ."
+            body = " " + " ".join(terms) + tail
+        out.append(lead + head + body)
+    return "\n".join(out) + "\n"
 
 
 def read_hext(text):
@@ -1101,6 +1253,51 @@ def run_impl(case):
         except Exception as e:  # noqa: BLE001
             obs += ["ERR-patch:" + _exc(e)] * (2 - (len(obs) % 2 == 1))
             viol.append(f"error-patchdiff: {e!r}"[:300])
+    pt = _ptext_of(case)
+    if pt is not None:
+        stats["ptext"] = 1
+        stats["ptext_mode_" + pt["mode"]] = 1
+        stats["ptext_hdr_" + "".join("n" if h is None else "e" if h == "" else "v" for h in (pt["hid"], pt["hprev"]))] = 1
+        stats["ptext_doc_" + ("clean" if pt["clean"] else "noisy")] = 1
+        d2q = case["d2"]
+        try:
+            kw = {}
+            if "target" in pt["mode"]:
+                kw["target"] = build(d2q.get("kind", kind), d2q["reg"], d2q["quads"], api + 1)
+            if pt["mode"].split("+")[0] in ("add", "remove"):
+                kw["operation"] = pt["mode"].split("+")[0]
+            for k, h in (("header_id", pt["hid"]), ("header_prev", pt["hprev"])):
+                if h is not None:
+                    kw[k] = "urn:h:%s" % h if h != "" else ""
+            text = ds.serialize(format="patch", **kw)
+            try:
+                obs.append(_doc_line(read_patch_doc(text)))
+            except ValueError as e:
+                obs.append("ERR-read:" + _exc(e))
+                viol.append(f"unreadable-patchtext: a line of the patch document is not a header, TX, TC, A or D row: {e!r}"[:300])
+        except Exception as e:  # noqa: BLE001
+            obs.append("ERR-pdoc:" + _exc(e))
+            viol.append(f"error-patchtext: serialize raised {e!r}"[:300])
+        try:
+            copy = build(kind, reg, case["quads"], api + 2)
+            doc_text = patch_text_of(pt["doc"], pt.get("ws", 0))
+            try:
+                copy.parse(data=doc_text, format="patch")
+                outcome = "ok"
+            except Exception as e:  # noqa: BLE001
+                outcome = _exc(e)
+            got = got_quads(copy)
+            stats["ptext_outcome_" + outcome] = 1
+            obs.append(outcome + " | " + line(quad_rows(got, bmap), exact=True))
+            if pt["clean"]:
+                want = expected_quads(d2q["quads"], DEFAULT_ID, term)
+                if outcome != "ok" or got != want:
+                    viol.append(f"patch-respelled: the diff d1->d2 written by hand ({outcome}) gives "
+                                f"{line(quad_rows(got, bmap), True)} but expected {line(quad_rows(want, bmap), True)}; "
+                                f"document: {doc_text!r}"[:900])
+        except Exception as e:  # noqa: BLE001
+            obs.append("ERR-pparse:" + _exc(e))
+            viol.append(f"error-patchtext: {e!r}"[:300])
     for path in tmpfiles:
         try:
             os.unlink(path)
@@ -1143,6 +1340,13 @@ def _eff_quads(case):
     return case["quads"]
 
 
+def _ptext_of(case):
+    pt = case.get("ptext")
+    if pt is None or case["kind"] == "cg" or case.get("d2") is None or (case.get("src") or {}).get("anon_graph"):
+        return None
+    return pt
+
+
 def _src_line(word, kind, reg, quads, cg_default=CG_DEFAULT):
     d = cg_default if kind == "cg" else "D"
     sub = (lambda g: d if g == "D" else g)
@@ -1167,6 +1371,14 @@ def model_lines(case):
             lines += [_src_line("load", kind, [], []), _src_line("load2", kind, case["reg"], quads), "diff", "apply"]
         else:
             lines += [_src_line("load2", kind, d2["reg"], d2["quads"]), "diff", "apply"]
+    pt = _ptext_of(case)
+    if pt is not None:
+        h = lambda x: "*" if x in (None, "") else str(x)      # noqa: E731   (`if header_id:` — "" is falsy)
+        op = pt["mode"].split("+")[0]
+        lines += [_src_line("load", kind, case["reg"], case["quads"]), _src_line("load2", kind, d2["reg"], d2["quads"]),
+                  "pdoc %s %d %s %s" % (op if op in ("add", "remove") else "-", int("target" in pt["mode"]),
+                                        h(pt["hid"]), h(pt["hprev"])),
+                  "pparse " + " ; ".join(" ".join(ln) for ln in pt["doc"])]
     return lines
 
 
@@ -1175,6 +1387,13 @@ def select_model_obs(case, out):
     res = []
     for cmd, o in zip(lines, out):
         if cmd.startswith("load"):
+            continue
+        if cmd.startswith("pdoc"):
+            res.append(_doc_line([x for x in o.split(" ; ") if x]))
+            continue
+        if cmd.startswith("pparse"):
+            outcome, _, qs = o.partition(" | ")
+            res.append(outcome.strip() + " | " + line([tuple(x.split(",")) for x in qs.split(" ") if x], exact=True))
             continue
         rows = [tuple("D" if y == "U" else y for y in x.split(",")) for x in o.split(" ") if x]
         if cmd == "diff":
@@ -1201,14 +1420,30 @@ def shrink(case):
         if ctx and len(ctx) > 1:
             for k in ctx:
                 yield {**case, "opt": [F, {**o, "context": {k2: v for k2, v in ctx.items() if k2 != k}}]}
+    pt = case.get("ptext")
+    # a clean hand-made document IS the diff of the two quad lists: it does not survive a change of either
+    keep = {"ptext": None} if pt and pt["clean"] else {}
+    if pt:
+        yield {**case, "ptext": None}
+        if not pt["clean"]:
+            for i in range(len(pt["doc"])):
+                yield {**case, "ptext": {**pt, "doc": pt["doc"][:i] + pt["doc"][i + 1:]}}
+        else:           # a clean document stays the diff d1 -> d2: only lines that are not A / D rows may go
+            for i, ln in enumerate(pt["doc"]):
+                if not (ln[0] in ("A", "D") and len(ln) > 1 and ln[1] == "Q"):
+                    yield {**case, "ptext": {**pt, "doc": pt["doc"][:i] + pt["doc"][i + 1:]}}
+        if pt["mode"] != "target":
+            yield {**case, "ptext": {**pt, "mode": "target"}}
+        if pt["hid"] is not None or pt["hprev"] is not None:
+            yield {**case, "ptext": {**pt, "hid": None, "hprev": None}}
     if d2 is not None:
         yield {**case, "d2": None}
         for i in range(len(d2["quads"])):
-            yield {**case, "d2": {**d2, "quads": d2["quads"][:i] + d2["quads"][i + 1:]}}
+            yield {**case, **keep, "d2": {**d2, "quads": d2["quads"][:i] + d2["quads"][i + 1:]}}
         for i in range(len(d2["reg"])):
             yield {**case, "d2": {**d2, "reg": d2["reg"][:i] + d2["reg"][i + 1:]}}
     for i in range(len(quads)):
-        yield {**case, "quads": quads[:i] + quads[i + 1:]}
+        yield {**case, **keep, "quads": quads[:i] + quads[i + 1:]}
     for i in range(len(reg)):
         yield {**case, "reg": reg[:i] + reg[i + 1:]}
     if case.get("api"):
@@ -1218,7 +1453,7 @@ def shrink(case):
     for i, q in enumerate(quads):        # simplify terms
         for j, simple in ((0, "i1"), (1, "i7"), (2, "l2")):
             if q[j] != simple and not (j == 0 and q[j][0] == "b") and not (j == 2 and q[j][0] == "b"):
-                yield {**case, "quads": quads[:i] + [q[:j] + [simple] + q[j + 1:]] + quads[i + 1:]}
+                yield {**case, **keep, "quads": quads[:i] + [q[:j] + [simple] + q[j + 1:]] + quads[i + 1:]}
 
 
 def _only(result, tag):
@@ -1306,9 +1541,17 @@ def _m_jsonld_base_is_graph(case, result):
         and _only_fmt(result, "jsonld")
 
 
+def _m_jsonld_underscore_prefix(case, result):
+    """pre-fix: a prefix named `_` is bound and json-ld is written with auto_compact"""
+    o = case.get("opt")
+    return bool(o) and o[0] == "jsonld" and bool(o[1].get("auto_compact")) and _only_fmt(result, "jsonld") \
+        and any(b[0] == "_" for b in case.get("binds") or [])
+
+
 TERM_IRI = {str(v): k for k, v in IRIS.items()}
 
 MATCHERS = {"jsonld_list_cell_shared_across_graphs": _m_jsonld_list_cell,
+            "jsonld_underscore_prefix": _m_jsonld_underscore_prefix,
             "trix_xmlns_prefix_declared": _m_trix_xmlns_prefix,
             "trig_default_prefix_clobbered": _m_trig_default_prefix_clobbered,
             "jsonld_base_equals_graph_name": _m_jsonld_base_is_graph,
